@@ -156,7 +156,9 @@ def havoc_unknown_locals(e, heads, unknown, tag):
                     elif is_sym(cur) and z3.is_real(cur):
                         _set_any_frame(h2, n, z3.Real(f"{n}!{tag}"))
                     else:
-                        _set_any_frame(h2, n, Opaque(n))
+                        o_ = Opaque(n)
+                        o_.unknown = True       # nothing is known about it: comparisons with it go both ways (engine.cmp)
+                        _set_any_frame(h2, n, o_)
             out.append(h2)
     return out
 
